@@ -23,7 +23,7 @@ CLAIMED = {
             "DESIGN.md §6 C12"),
     "C15": ("fault_enumeration",
             "deterministic simulation with the evaluator tick counter as simulated clock: budgets enumerated around T and every 1000-tick boundary, cancellation injected at chosen tick positions through a per-tick hook, call-depth limit x depth sweeps on every call path",
-            "For generated loop/call programs whose cost T is measured by a limit-free run (optionally after a prelude evaluation that shifts the 1000-tick phase), every budget in the boundary set must give error <=> cumulative ticks > budget, overshoot <= 1000, a prefix transcript, unchanged behaviour within the limit and a re-usable evaluator; cancellation raised at chosen tick positions (per-tick hook), at the n-th poll, or from inside the program must be honoured within 1000 ticks in the same evaluation, also when the request is raised again on a re-used evaluator after an earlier cancellation; for 16 recursion shapes x limits {1,2,3,5,10,50,200} all depths around the threshold must show a single threshold (also when the limit is configured again on an evaluator that has already evaluated something: refused or accepted, the maximum in force must be the one the embedder was told), StackOverflow as the error, the same threshold on all pure-def call paths, and unbounded recursion must never crash. Tick counts must be repeatable, linear in the bound of every kind of loop (for over list / dict / set / string elements, comprehensions incl. second clause and if, module-level loops, nested and unpacking loops) and count every call path (local defs, load()ed frozen defs, lambdas, native callbacks), equal for a frozen and a local copy of the same function.",
+            "For generated loop/call programs whose cost T is measured by a limit-free run (optionally after a prelude evaluation that shifts the 1000-tick phase), every budget in the boundary set must give error <=> cumulative ticks > budget, overshoot <= 1000, a prefix transcript, unchanged behaviour within the limit and a re-usable evaluator; cancellation raised at chosen tick positions (per-tick hook), at the n-th poll, or from inside the program must be honoured within 1000 ticks in the same evaluation, also when the request is raised again on a re-used evaluator after an earlier cancellation; for 16 recursion shapes x limits {1,2,3,5,10,50,200} all depths around the threshold must show a single threshold (also when the limit is configured again on an evaluator that has already evaluated something: refused or accepted, the maximum in force must be the one the embedder was told), StackOverflow as the error, the same threshold on all pure-def call paths, and unbounded recursion must never crash. Tick counts must be repeatable, linear in the bound of every kind of loop (for over list / dict / set / string elements, comprehensions incl. second clause and if, module-level loops, nested and unpacking loops) and count every call exactly once on each of 31 call paths (local defs, load()ed frozen defs, lambdas, fields named like builtin methods, builtin methods resolved at compile time, natives which call back: sorted / max with key=, map, filter, partial, a host native): ticks per iteration = loop + number of calls the expression makes; equal for a frozen and a local copy of the same function.",
             "T is measured, not assumed; the documented check interval (1000) is the only constant. Native-callback paths are only bounded (they may use several frames per level). check_tick_count_limit()'s result type is not exported, only its presence is checked.",
             "DESIGN.md §6 C15"),
     "C04": ("exploration",
